@@ -4,21 +4,21 @@
 (*    classes of connected patterns is 6 (3 nodes) and 171 (4 nodes); classes  *)
 (*    partition the connected labelled patterns; the tuple order is a strict   *)
 (*    total order with exactly one canonical pattern per directed class.       *)
-(*  - invariants, in EVERY state of the container model over Node (all of them *)
-(*    are initial states; Node = 1..n):                                        *)
+(*  - invariants, in every state of the container model that has all of Node   *)
+(*    as nodes, unit weights and no metadata (Node = 1..n):                    *)
 (*    Kind = "hg": every hypergraph on Node with hyperedge sizes 1..n;         *)
 (*    Kind = "dir": every directed hypergraph on Node.                         *)
+(*    Each is reached exactly once, by add_edge calls in increasing key order. *)
 EXTENDS HGXOps, Motifs
 VARIABLE st
 
-\* every well-formed state over Node (unit weights, no metadata): all of them are initial states
-KeysIn(U) == {k \in KeyU : KN(k) \subseteq U}
-MkState(U, Ks) == [nodes |-> U, E |-> [k \in Ks |-> [w |-> 1, md |-> NoMeta]], nmd |-> [n \in U |-> NoMeta],
-                   hmd |-> Empty(Weighted, TypeName).hmd, wtd |-> Weighted]
-Init == \E U \in SUBSET Node : \E Ks \in SUBSET KeysIn(U) : st = MkState(U, Ks)
-Next == UNCHANGED st
+MaskOf(A) == LET F(n) == Pow(2, n - 1) IN SumSet(F, A)
+KeyNo == [k \in KeyU |-> MaskOf(k.s) * Pow(2, Cardinality(Node)) + MaskOf(k.t)]      \* a numbering of the keys
+Init == st = WithNodes(Empty(Weighted, TypeName), Node)
+Next == \E k \in KeyU : /\ \A j \in Keys(st) : KeyNo[j] < KeyNo[k]
+                        /\ st' \in AddEdge(st, k, 0, FALSE, NoMeta)
 Bound == TRUE
-TypeOK == WellFormed(st)
+TypeOK == WellFormed(st) /\ st.nodes = Node
 
 Hg == HEdges(st)
 NodePerms == Bijections(Node)
@@ -73,9 +73,9 @@ CensusRelabelInvariantAllPerms == \A k \in Orders : \A f \in NodePerms :
    CensusNZ(HRelabel(f, Hg), Node, k) = CensusNZ(Hg, Node, k)
 CensusIgnoresLarge == \A k \in Orders :
    CensusNZ({e \in Hg : Cardinality(e) <= k}, Node, k) = CensusNZ(Hg, Node, k)
-\* singletons and nodes outside every hyperedge are irrelevant
+\* singletons and nodes outside every larger hyperedge are irrelevant
 CensusIgnoresSingletons == \A k \in Orders :
-   CensusNZ({e \in Hg : Cardinality(e) >= 2}, Node, k) = CensusNZ(Hg, st.nodes, k)
+   LET big == {e \in Hg : Cardinality(e) >= 2} IN CensusNZ(big, UNION big, k) = CensusNZ(Hg, Node, k)
 \* Census is CensusNZ completed by zeros, and its total is the number of connected k-subsets
 CensusTotal == \A k \in Orders :
    LET c == Census(Hg, Node, k)  nz == CensusNZ(Hg, Node, k)  V(x) == nz[x] IN
